@@ -210,6 +210,10 @@ func main() {
 	}
 
 	replayDir := filepath.Join(verifRoot, "replays", id)
+	foundDir := filepath.Join(replayDir, "found")
+	if os.Getenv("VERIF_REPO") != "" {
+		foundDir = filepath.Join(os.TempDir(), "verif-found-"+id)
+	}
 	baseEnv := append(os.Environ(), goEnv...)
 	baseEnv = append(baseEnv, "VERIF_TOOLS="+toolDir, "VERIF_TIER="+mode, "VERIF_ROOT="+verifRoot, "TMPDIR="+tmp)
 
@@ -287,9 +291,9 @@ func main() {
 			}
 			return
 		}
-		os.MkdirAll(filepath.Join(replayDir, "found"), 0o755)
+		os.MkdirAll(foundDir, 0o755)
 		sum := sha256.Sum256(b)
-		dst := filepath.Join(replayDir, "found", fmt.Sprintf("%s-%s.json", strings.ReplaceAll(rf.Entry, "/", "_"), hex.EncodeToString(sum[:5])))
+		dst := filepath.Join(foundDir, fmt.Sprintf("%s-%s.json", strings.ReplaceAll(rf.Entry, "/", "_"), hex.EncodeToString(sum[:5])))
 		if seenViolation[dst] {
 			return
 		}
@@ -510,8 +514,8 @@ func main() {
 			note, crashers := runFuzz(harness, plan.Pkg, fz, baseEnv, tmp)
 			fuzzNotes = append(fuzzNotes, note)
 			for _, c := range crashers {
-				os.MkdirAll(filepath.Join(replayDir, "found"), 0o755)
-				dst := filepath.Join(replayDir, "found", "fuzz-"+fz.Target+"-"+filepath.Base(c))
+				os.MkdirAll(foundDir, 0o755)
+				dst := filepath.Join(foundDir, "fuzz-"+fz.Target+"-"+filepath.Base(c))
 				b, _ := os.ReadFile(c)
 				os.WriteFile(dst, b, 0o644)
 				fmt.Printf("VIOLATION property=%s replay=%s\n", id, dst)
@@ -528,9 +532,14 @@ func main() {
 	}
 	wall := time.Since(start).Seconds()
 	ev := merged.evidence(id, mode, seed, plan, wall, len(violations), fuzzNotes, known, knownPrinted, inconclusive)
-	os.MkdirAll(filepath.Join(verifRoot, "evidence"), 0o755)
 	b, _ := json.MarshalIndent(ev, "", " ")
-	os.WriteFile(filepath.Join(verifRoot, "evidence", id+".json"), b, 0o644)
+	if os.Getenv("VERIF_REPO") != "" {
+		// development runs against a scratch copy never touch the evidence of the real tree
+		os.WriteFile(filepath.Join(os.TempDir(), "verif-evidence-"+id+"-scratch.json"), b, 0o644)
+	} else {
+		os.MkdirAll(filepath.Join(verifRoot, "evidence"), 0o755)
+		os.WriteFile(filepath.Join(verifRoot, "evidence", id+".json"), b, 0o644)
+	}
 
 	switch {
 	case len(violations) > 0:
